@@ -45,6 +45,13 @@ def targeted():
         {'name': 'u', 'type': {'type': 'fixed', 'name': 'U', 'size': 16, 'logicalType': 'uuid', 'x': 1}},
         {'name': 'du', 'type': {'type': 'fixed', 'name': 'Du', 'size': 12, 'logicalType': 'duration', 'y': [1]}},
         {'name': 'b', 'type': {'type': 'bytes', 'logicalType': 'decimal', 'precision': 4, 'scale': 4}}]})
+    # fixed-based schemas that are not decimals carrying attributes named like the decimal's own keys
+    out.append({'type': 'record', 'name': 'FixAttrs', 'fields': [
+        {'name': 'p', 'type': {'type': 'fixed', 'name': 'Plain', 'size': 4, 'precision': 9, 'scale': 'two'}},
+        {'name': 'u', 'type': {'type': 'fixed', 'name': 'U2', 'size': 16, 'logicalType': 'uuid', 'scale': 1}},
+        {'name': 'du', 'type': {'type': 'fixed', 'name': 'Du2', 'size': 12, 'logicalType': 'duration', 'precision': [7]}},
+        {'name': 'e', 'type': {'type': 'enum', 'name': 'EnP', 'symbols': ['A'], 'precision': 1, 'size': 2}},
+        {'name': 'a', 'type': {'type': 'array', 'items': 'int', 'scale': 0, 'values': 'x'}}]})
     # attributes colliding with structural keys of other kinds, docs/defaults with characters needing escapes
     out.append({'type': 'record', 'name': 'Esc', 'doc': 'q" b\\ nl\n tab\t ctl\u0001 é \U0001F600', 'symbols': ['not', 'an', 'enum'], 'size': 'x', 'items': 1, 'fields': [
         {'name': 's', 'type': 'string', 'default': 'q" b\\ nl\n é \U0001F600 \u0000', 'doc': ' '},
@@ -55,6 +62,32 @@ def targeted():
         {'name': 'n', 'type': ['null', 'int'], 'default': None},
         {'name': 'i', 'type': ['int', 'null'], 'default': 3}]})
     return out
+
+
+def null_ns_nested(j, ns=None):
+    """does the text define a named type of the null namespace inside a namespaced type?"""
+    if isinstance(j, list):
+        return any(null_ns_nested(b, ns) for b in j)
+    if not isinstance(j, dict):
+        return False
+    t = j.get('type')
+    if isinstance(t, (dict, list)):
+        return null_ns_nested(t, ns)
+    inner = ns
+    if t in ('record', 'error', 'enum', 'fixed') and isinstance(j.get('name'), str):
+        try:
+            inner = names.compute_name(j, ns)[0]
+        except names.SchemaError:
+            return False
+        if inner is None and ns is not None:
+            return True
+    if t in ('record', 'error'):
+        return any(null_ns_nested(f.get('type'), inner) for f in j.get('fields', []) if isinstance(f, dict))
+    if t == 'array':
+        return null_ns_nested(j.get('items'), ns)
+    if t == 'map':
+        return null_ns_nested(j.get('values'), ns)
+    return False
 
 
 def check(run, replay_case=None):
@@ -139,14 +172,20 @@ def check(run, replay_case=None):
                 run.violation('serialized-denotes-different-schema %s' % sg, 'under the specification\'s name rules the serialized JSON denotes a different schema than the input text',
                               case, observed=n1, expected=n0)
         except names.SchemaError as e:
-            run.violation('serialized-not-wellformed why=%s' % str(e).split(' ')[0], 'reference parser rejects the serialized schema: %s' % e, case, observed=j1)
+            why = str(e).split(' ')[0]
+            if why in ('unresolved', 'duplicate') and null_ns_nested(c['schema']):
+                why += ' cause=null-namespace-lost'
+            run.violation('serialized-not-wellformed why=%s' % why, 'reference parser rejects the serialized schema: %s' % e, case, observed=j1)
         # (2),(3) re-parse
         pe, ie = ev2.get('%s/p1' % cid), ev2.get('%s/i1' % cid)
         if pe is None:
             continue
         run.count('reparsed')
         if 'ok' not in pe:
-            run.violation('reparse-failed kind=%s' % (pe.get('err') or {'kind': 'panic'})['kind'], 'the serialized schema is rejected by the parser', case, observed=pe)
+            kind = (pe.get('err') or {'kind': 'panic'})['kind']
+            if kind in ('Unknown-primitive-type', 'Two-schemas-with-the-same-fullname') and null_ns_nested(c['schema']):
+                kind += ' cause=null-namespace-lost'
+            run.violation('reparse-failed kind=%s' % kind, 'the serialized schema is rejected by the parser', case, observed=pe)
             continue
         info = ie.get('ok', {})
         d1 = info.get('dump', {}).get('ok')
